@@ -89,7 +89,8 @@ def build_harness(race=False, tags="verif", cmd="nrpverif"):
     """Build /verif/harness/bin/<cmd>[-race] (package ./cmd/<cmd>) from /repo's *current working tree*.
     Each engine may have its own command directory so that engines do not break each other's build."""
     os.makedirs(os.path.join(HARNESS, "bin"), exist_ok=True)
-    name = cmd + ("-race" if race else "")
+    # self-test runs (VERIF_OUT_SUFFIX) get their own binary: they may be built with a different overlay
+    name = cmd + ("-race" if race else "") + os.environ.get("VERIF_OUT_SUFFIX", "")
     binp = os.path.join(HARNESS, "bin", name)
     lock = open(os.path.join(HARNESS, "bin", ".lock-" + name), "w")
     fcntl.flock(lock, fcntl.LOCK_EX)
